@@ -245,7 +245,7 @@ class Case:
 
 
 # engines whose every step is deterministic and short: no output for this long means a step blocks
-IDLE_LIMIT = {"api": 8, "machine": 8, "slots": 30, "smoother": 8, "framebuf": 8, "tune": 8, "url": 8, "urlparts": 8}
+IDLE_LIMIT = {"api": 20, "machine": 20, "slots": 40, "smoother": 20, "framebuf": 20, "tune": 20, "url": 20, "urlparts": 20}
 
 
 def run_stream(binary, engine, text, timeout=1800, idle=None):
